@@ -47,6 +47,15 @@ pub fn size(d: &Desc) -> usize {
     }
 }
 
+pub fn depth(d: &Desc) -> usize {
+    match d {
+        Desc::Atom(..) | Desc::Interval(_) | Desc::Placeholder => 0,
+        Desc::Set(_, v) | Desc::Seq(_, v) | Desc::Image(_, _, v) => 1 + v.iter().map(depth).max().unwrap_or(0),
+        Desc::Neg(a) => 1 + depth(a),
+        Desc::Pair(_, a, b) | Desc::Sym(_, a, b) => 1 + depth(a).max(depth(b)),
+    }
+}
+
 /// Can this description be written down and read back by the shipped parsers?
 /// (non-empty compounds, no placeholder inside an image, identifier names)
 pub fn parseable(d: &Desc) -> bool {
